@@ -172,6 +172,22 @@ FAULTS = [
 ]
 
 
+def _operator_error_paths():
+    """every operator error path (division by zero, negative and absurd shift counts) x every kind of left operand: a
+    number, a constant defined before / after, a label before / after, '.', sums and differences of them - the value
+    the error path gets may still be symbolic"""
+    out = []
+    for op, right in (("/", "0"), ("%", "0"), ("<<", "-1"), (">>", "-1"), ("<<", "200000"), (">>", "200000"), ("_", "200000"), ("_", "-200000"), ("/", "z0"), ("<<", "m1")):
+        for left in ("7", "c1", "c2", "lb1", "lb2", ".", "lb2 - lb1", "lb1 + c2", "lb2 - .", "0"):
+            for form in (".word %s", "x9 = %s\n.word x9", "mov #%s, r0", ".blkb %s", ".repeat 2 { .word %s }", "mov %s(r1), r0", "br %s"):
+                e = "%s %s %s" % (left, op, right)
+                out.append("c1 = 5\nz0 = 0\nlb1: nop\n%s\n.even\nlb2: nop\nc2 = 6\nm1 = -1\n.word 19\n" % (form % e))
+    return out
+
+
+FAULTS += _operator_error_paths()[::3]          # a third of them in the fixed list; the rest are sampled below
+
+
 def mutate_tokens(text, rng, pool):
     toks = re.findall(r"\s+|[A-Za-z0-9_$.]+|.", text, re.S)
     if not toks:
